@@ -9,22 +9,36 @@ in:  idx method status header "=>" stored life hfp upcalls xstatus code
 out: verdict line -/
 def judgeFresh (fields : List String) : String :=
   match fields with
-  | [_idx, m, _status, hdr, "=>", stored, life, _hfp, _up, _xs, _code] =>
+  | [_idx, m, _status, hdr, "=>", stored, life, _hfp, up1, xs1, _code, up2, xs2, b1, b2] =>
     match unhex m, parseHeader hdr, stored.toNat?, life.toInt? with
     | some method, some h, some st, some L =>
       let implStored := st == 1
       -- the monitor is evaluated on what the implementation did, model or no model
       let mon := if implStored then Spec.C03.shareableOK method h L else true
-      let trip := if mon then "" else " TRIP stored_unshareable"
+      let isGH := method = "GET".toList ∨ method = "HEAD".toList
+      let xs1 := (unhex xs1).getD []
+      let xs2 := (unhex xs2).getD []
+      let hitLbl : Str := "hit".toList
+      -- createdAt + ttl overflows int64: the entry is expired at once and never served (C04.overflow_never_served)
+      let wraps : Bool := decide (L + 1700000000 ≥ 9223372036854775808)
+      -- label truthfulness and forwarding: a hit never touched the upstream, anything else exactly once; an
+      -- unqualified response is delivered only to the request that fetched it
+      let trip := (if mon then "" else " TRIP stored_unshareable")
+        ++ (if up1 ≠ "1" then " TRIP pass_not_forwarded_once" else "")
+        ++ (if (xs2 = hitLbl ∧ up2 ≠ "0") ∨ (xs2 ≠ hitLbl ∧ up2 ≠ "1") then " TRIP label_lies" else "")
+        ++ (if !isGH ∧ (xs1 ≠ "passed".toList ∨ xs2 ≠ "passed".toList) then " TRIP label_lies" else "")
+        ++ (if !implStored ∧ method ≠ "HEAD".toList ∧ b1 = b2 then " TRIP unqualified_shared" else "")
+        ++ (if implStored ∧ !wraps ∧ (xs2 ≠ hitLbl ∨ (method ≠ "HEAD".toList ∧ b1 ≠ b2)) then " TRIP stored_not_served" else "")
       match Fresh.cfgOfFacts with
       | none => s!"nomodel{trip}"
       | some c =>
         let md := Fresh.storeDecision c method true true h
         let nontrivial := md.isSome || !(h.values Fresh.hCacheControl).isEmpty
         let cls := match md with | some _ => "stored" | none => "notstored"
-        let agree := match md with
-          | some ml => implStored && ml == L
-          | none => !implStored
+        let agree := (match md with
+          | some ml => implStored && ml == L && (xs2 == hitLbl) == !wraps
+          | none => !implStored && xs2 != hitLbl)
+          && xs1 == (if isGH then "fetching".toList else "passed".toList)
         if agree then s!"ok {cls} {if nontrivial then 1 else 0}{trip}"
         else s!"DIFF model={repr md} impl=({st},{L}){trip}"
     | _, _, _, _ => "BADLINE parse"
